@@ -245,7 +245,7 @@ func c20Msg(r *Run, state, typ string) {
 	w := scn.Build(KindDB)
 	for _, a := range pre {
 		if o := w.Apply(a); !o.OK {
-			r.HarnessError("preamble %s: %s", a.Desc, o.Err)
+			panic(preambleFailed{fmt.Sprintf("%s: %s", a.Desc, o.Err)})
 		}
 	}
 	// an own message and deposit for the replacement types (when sending is possible)
